@@ -7,6 +7,7 @@
 #include "cJSON.h"
 #include "cJSON_Utils.h"
 #include <math.h>
+#include <stdarg.h>
 
 #define MAXN 16
 /* what kind of disagreement the last failed comparison found: 1 shape / fields / results (list model), 2 ownership (allocator census) */
@@ -207,9 +208,10 @@ static int run_call(const jv *act, cres *r, char *why, size_t wn)
         int cnt = (int)jv_int(A(1)); int isnull = (int)jv_int(A(2)); int nums[8] = {0}; size_t k; const jv *v = A(3);
         for (k = 0; k < 8 && v && k < v->n; k++) nums[k] = (int)jv_int(v->e[k]);
         WIN(4);
-        if (((f + cnt + 3) % 3) == 0) RPTR(cJSON_CreateIntArray(isnull ? NULL : nums, cnt));
-        else if (((f + cnt + 3) % 3) == 1) { double d[8]; for (k = 0; k < 8; k++) d[k] = nums[k]; RPTR(cJSON_CreateDoubleArray(isnull ? NULL : d, cnt)); }
-        else { float d[8]; for (k = 0; k < 8; k++) d[k] = (float)nums[k]; RPTR(cJSON_CreateFloatArray(isnull ? NULL : d, cnt)); }
+        {   unsigned long which = vd_salt() % 3;       /* which of the three numeric bulk constructors: by content hash, so that every (count, refused request) meets each */
+        if (which == 0) RPTR(cJSON_CreateIntArray(isnull ? NULL : nums, cnt));
+        else if (which == 1) { double d[8]; for (k = 0; k < 8; k++) d[k] = nums[k]; RPTR(cJSON_CreateDoubleArray(isnull ? NULL : d, cnt)); }
+        else { float d[8]; for (k = 0; k < 8; k++) d[k] = (float)nums[k]; RPTR(cJSON_CreateFloatArray(isnull ? NULL : d, cnt)); } }
     } else if (!strcmp(a, "CreateStringArray")) {
         int cnt = (int)jv_int(A(1)); int isnull = (int)jv_int(A(2)); const char *strs[8]; size_t k; const jv *v = A(3);
         for (k = 0; k < 8 && v && k < v->n; k++) strs[k] = K_(v->e[k]);
@@ -395,6 +397,62 @@ static void count_action(const char *a, int changed)
     if (i == nact) { if (nact == 80) return; snprintf(actcnt[nact].name, sizeof(actcnt[nact].name), "%s", a); nact++; }
     actcnt[i].n++; if (changed) actcnt[i].changed++;
 }
+/* ------------------------------------------------------------------------------------------------------
+ * Scalar accessors and the number setters over the whole number catalogue (NumCatalogue.tla: NumInt is the integer view the
+ * specification demands - truncation toward zero, saturated to the int range).  Tree.tla carries numbers as opaque ids; what an
+ * id means for valuedouble / valueint is tabulated by the catalogue and applied here to every constructor and setter. */
+static void nviol(const char *fmt, ...)
+{
+    char msg[400]; va_list ap; va_start(ap, fmt); vsnprintf(msg, sizeof(msg), fmt, ap); va_end(ap);
+    if (strstr("C06", VD.prop) == NULL) { VD.by_kind[0]++; return; }
+    vd_violation("%s", msg);
+}
+static int same_bits(double a, double b) { return memcmp(&a, &b, sizeof(a)) == 0 || (a != a && b != b); }
+static void number_cases(void)
+{
+    int i; char ver[32];
+    case_begin(); VD.cases++;
+    if (!VD_TRY()) { vd_violation("scalar accessors / number setters: memory fault"); return; }
+    for (i = 1; i <= NUMCAT_COUNT; i++) {
+        double d; int isnan_, iv = NUMCAT_INT[i]; cJSON *n, *o, *m; double r;
+        memcpy(&d, &NUMCAT_BITS[i], sizeof(d)); isnan_ = (d != d);
+        n = cJSON_CreateNumber(d);
+        if (!n || (n->type & 0xFF) != cJSON_Number || !same_bits(n->valuedouble, d) || (!isnan_ && n->valueint != iv) || n->next || n->prev || n->child || n->string || n->valuestring)
+            nviol("cJSON_CreateNumber(%s): valuedouble %.17g valueint %d, expected integer view %d", NUMCAT_TEXT[i], n ? n->valuedouble : 0.0, n ? n->valueint : 0, iv);
+        if (n && !same_bits(cJSON_GetNumberValue(n), d)) nviol("cJSON_GetNumberValue differs from the number %s", NUMCAT_TEXT[i]);
+        if (n && cJSON_GetStringValue(n) != NULL) nviol("cJSON_GetStringValue of a number is not NULL");
+        cJSON_Delete(n);
+        n = cJSON_CreateNumber(7.0); r = cJSON_SetNumberHelper(n, d);
+        if (!same_bits(r, d) || !same_bits(n->valuedouble, d) || (!isnan_ && n->valueint != iv) || (n->type & 0xFF) != cJSON_Number)
+            nviol("cJSON_SetNumberHelper(%s): returned %.17g, valuedouble %.17g valueint %d, expected integer view %d", NUMCAT_TEXT[i], r, n->valuedouble, n->valueint, iv);
+        r = cJSON_SetNumberValue(n, 3.0); if (!same_bits(r, 3.0) || n->valueint != 3 || !same_bits(n->valuedouble, 3.0)) nviol("cJSON_SetNumberValue(3) after %s leaves valuedouble %.17g valueint %d", NUMCAT_TEXT[i], n->valuedouble, n->valueint);
+        if (!isnan_) { (void)cJSON_SetIntValue(n, iv); if (n->valueint != iv || !same_bits(n->valuedouble, (double)iv)) nviol("cJSON_SetIntValue(%d) leaves valuedouble %.17g valueint %d", iv, n->valuedouble, n->valueint); }
+        cJSON_Delete(n);
+        o = cJSON_CreateObject(); m = cJSON_AddNumberToObject(o, "k", d);
+        if (!m || o->child != m || !same_bits(m->valuedouble, d) || (!isnan_ && m->valueint != iv) || !m->string || strcmp(m->string, "k")) nviol("cJSON_AddNumberToObject(%s): member missing or with other fields", NUMCAT_TEXT[i]);
+        cJSON_Delete(o);
+    }
+    {   /* type predicates and scalar accessors on every kind, and on NULL */
+        cJSON *k[9]; int j; static const char *nm[9] = { "null", "true", "false", "number", "string", "raw", "array", "object", "NULL" };
+        k[0] = cJSON_CreateNull(); k[1] = cJSON_CreateTrue(); k[2] = cJSON_CreateFalse(); k[3] = cJSON_CreateNumber(2); k[4] = cJSON_CreateString("s"); k[5] = cJSON_CreateRaw("r"); k[6] = cJSON_CreateArray(); k[7] = cJSON_CreateObject(); k[8] = NULL;
+        for (j = 0; j < 9; j++) {
+            int got[10], exp[10], q;
+            got[0] = cJSON_IsNull(k[j]); got[1] = cJSON_IsTrue(k[j]); got[2] = cJSON_IsFalse(k[j]); got[3] = cJSON_IsNumber(k[j]); got[4] = cJSON_IsString(k[j]); got[5] = cJSON_IsRaw(k[j]); got[6] = cJSON_IsArray(k[j]); got[7] = cJSON_IsObject(k[j]);
+            got[8] = cJSON_IsBool(k[j]); got[9] = cJSON_IsInvalid(k[j]);
+            for (q = 0; q < 8; q++) exp[q] = (q == j); exp[8] = (j == 1 || j == 2); exp[9] = 0;
+            for (q = 0; q < 10; q++) if ((got[q] != 0) != (exp[q] != 0)) nviol("type predicate %d on a %s item answers %d", q, nm[j], got[q]);
+            if ((cJSON_GetStringValue(k[j]) != NULL) != (j == 4)) nviol("cJSON_GetStringValue on a %s item", nm[j]);
+            if (j == 4 && cJSON_GetStringValue(k[j]) != k[j]->valuestring) nviol("cJSON_GetStringValue does not return the item's string");
+            { double g = cJSON_GetNumberValue(k[j]); if (j == 3 ? !same_bits(g, 2.0) : (g == g)) nviol("cJSON_GetNumberValue on a %s item gives %.17g", nm[j], g); }
+            if (cJSON_GetArraySize(k[j]) != 0 || cJSON_GetArrayItem(k[j], 0) != NULL || cJSON_GetObjectItem(k[j], "a") != NULL || cJSON_HasObjectItem(k[j], "a")) nviol("size / item queries on an empty or scalar %s item", nm[j]);
+        }
+        for (j = 0; j < 8; j++) cJSON_Delete(k[j]);
+    }
+    snprintf(ver, sizeof(ver), "%d.%d.%d", CJSON_VERSION_MAJOR, CJSON_VERSION_MINOR, CJSON_VERSION_PATCH);
+    if (!cJSON_Version() || strcmp(cJSON_Version(), ver)) nviol("cJSON_Version() is not %s", ver);
+    if (al_live != 0 || al_bad_free) { if (strstr("C07 C06", VD.prop)) vd_violation("scalar accessors / number setters: %ld block(s) remain allocated, %ld invalid releases", al_live, al_bad_free); }
+    VD_END();
+}
 int vd_tree_main(int argc, char **argv);
 int vd_tree_main(int argc, char **argv)
 {
@@ -405,6 +463,7 @@ int vd_tree_main(int argc, char **argv)
     hooks.malloc_fn = al_malloc; hooks.free_fn = al_free;
     cJSON_InitHooks(&hooks);
     vd_install_handlers();
+    number_cases();
     while ((len = getline(&line, &cap, stdin)) > 0 || (len < 0 && errno == EINTR && !feof(stdin) && (clearerr(stdin), 1))) {
         if (len <= 0) continue;
         char *copy; jv *v; int rc;
